@@ -11,6 +11,7 @@
 (* validated against every database in DBs(plan).                          *)
 (***************************************************************************)
 EXTENDS SQLSem, Json, IOUtils, Randomization
+TS == INSTANCE TSWindow
 
 Plans == JsonDeserialize(IOEnv.VERIF_PLANS)
 Cfg == JsonDeserialize(IOEnv.VERIF_CFG)        \* [sample |-> number of databases per plan (0 = all), names |-> 0/1]
@@ -18,9 +19,11 @@ Cfg == JsonDeserialize(IOEnv.VERIF_CFG)        \* [sample |-> number of database
 VARIABLES tid, asg, res, pc, done
 vars == <<tid, asg, res, pc, done>>
 
-\* table contents: every bag of at most 2 rows over RowSet (two columns per table), in canonical order
-RowSet == {<<1, 1>>, <<1, 2>>, <<2, 1>>, <<NULL, 1>>, <<2, NULL>>}
-Contents == {<<>>} \cup {<<r>> : r \in RowSet} \cup {<<p[1], p[2]>> : p \in {x \in RowSet \X RowSet : ~RowLess(x[2], x[1])}}
+\* table contents: every bag of at most t.maxrows rows over t.rowset, as canonical (non-decreasing) sequences
+RECURSIVE Bags(_, _)
+Bags(rs, n) == IF n = 0 THEN {<<>>}
+               ELSE {<<>>} \cup {<<p[1]>> \o p[2] : p \in {q \in rs \X Bags(rs, n - 1) : q[2] = <<>> \/ ~RowLess(q[2][1], q[1])}}
+Contents(t) == Bags({t.rowset[i] : i \in 1..Len(t.rowset)}, t.maxrows)
 
 Tabs(p) == p.tables                             \* << [db, name, cols] >>
 DbOf(p, a) ==
@@ -29,9 +32,11 @@ DbOf(p, a) ==
   IN [d \in dbs |-> [n \in {ts[i].name : i \in {j \in 1..Len(ts) : ts[j].db = d}} |->
         LET i == CHOOSE j \in 1..Len(ts) : ts[j].db = d /\ ts[j].name = n IN [cols |-> ts[i].cols, rows |-> a[i]]]]
 
-Ctx(p, a, r, defdb) == [db |-> DbOf(p, a), res |-> r, defdb |-> defdb, ctes |-> [n \in {} |-> {}]]
+Ctx(p, a, r, defdb) == [db |-> DbOf(p, a), res |-> r, defdb |-> defdb, ctes |-> [n \in {} |-> {}], vars |-> <<>>]
 
-AllAsg(p) == [1..Len(Tabs(p)) -> Contents]
+RECURSIVE AsgFrom(_, _)
+AsgFrom(ts, i) == IF i > Len(ts) THEN {<<>>} ELSE {<<c>> \o rest : c \in Contents(ts[i]), rest \in AsgFrom(ts, i + 1)}
+AllAsg(p) == AsgFrom(Tabs(p), 1)
 Init ==
   /\ tid \in 1..Len(Plans)
   /\ asg \in (IF Cfg.sample = 0 THEN AllAsg(Plans[tid]) ELSE RandomSubset(Cfg.sample, AllAsg(Plans[tid])))
@@ -53,11 +58,44 @@ Union == Exec("union")
 Project == Exec("project")
 LimitOffset == Exec("limit")
 
+\* containers: MultipleSteps = bag union of its sub-steps; MapReduceStep = its sub-steps once per row of `values`,
+\* with $var[col] standing for that row's value of col, results bag-unioned.  Every admissible outcome is explored.
+RECURSIVE SubsOutcomes(_, _, _)
+SubsOutcomes(subs, i, c) ==
+  IF i > Len(subs) THEN {<<>>}
+  ELSE {r.rows \o rest : r \in EvalQ(subs[i].q, [c EXCEPT !.defdb = subs[i].defdb]), rest \in SubsOutcomes(subs, i + 1, c)}
+HdrOfSubs(subs, c) == (CHOOSE r \in EvalQ(subs[1].q, [c EXCEPT !.defdb = subs[1].defdb]) : TRUE).hdr
+Multiple ==
+  /\ ~done /\ pc <= Len(P.steps) /\ StepQ.kind = "multiple"
+  /\ LET c == Ctx(P, asg, res, "") IN
+     \E rows \in SubsOutcomes(StepQ.subs, 1, c) : res' = Append(res, Rel(HdrOfSubs(StepQ.subs, c), rows, FALSE))
+  /\ pc' = pc + 1 /\ UNCHANGED <<tid, asg, done>>
+RECURSIVE PerRow(_, _, _)
+PerRow(vals, i, c) ==
+  IF i > Len(vals.rows) THEN {<<>>}
+  ELSE LET vv == [n \in {vals.hdr[k].c : k \in 1..Len(vals.hdr)} |->
+                      vals.rows[i][CHOOSE k \in 1..Len(vals.hdr) : vals.hdr[k].c = n]]
+       IN {a \o b : a \in SubsOutcomes(StepQ.subs, 1, [c EXCEPT !.vars = vv]), b \in PerRow(vals, i + 1, c)}
+MapReduce ==
+  /\ ~done /\ pc <= Len(P.steps) /\ StepQ.kind = "mapreduce"
+  /\ LET c == Ctx(P, asg, res, "") vals == res[StepQ.values + 1]
+         hdr == HdrOfSubs(StepQ.subs, [c EXCEPT !.vars = [n \in {vals.hdr[k].c : k \in 1..Len(vals.hdr)} |-> NULL]]) IN
+     \E rows \in PerRow(vals, 1, c) : res' = Append(res, Rel(hdr, rows, FALSE))
+  /\ pc' = pc + 1 /\ UNCHANGED <<tid, asg, done>>
+
 Orig == EvalQ(P.orig, Ctx(P, asg, <<>>, P.defdb))
 Answer == res[Len(res)]
 Names(rel) == [i \in 1..Len(rel.hdr) |-> rel.hdr[i].c]
 
+\* C15: the last executed step is the data handed to the time-series model
+TSVerdict ==
+  LET t == Tabs(P)[1]
+      adm == TS!Admissible(P.ts, t.cols, asg[1])
+  IN IF IsErrRel(Answer) THEN "undecided-plan-column-resolution"
+     ELSE IF Canon(Answer.rows) \in adm THEN "ok" ELSE "model-input-not-admissible"
+
 Verdict ==
+  IF P.ts.on = 1 THEN TSVerdict ELSE
   LET o == Orig
       ordered == \A x \in o : x.ord
   IN
@@ -73,6 +111,6 @@ Finish ==
   /\ LET v == Verdict IN v # "ok" => PrintT(<<"BAD", tid, v, asg>>)
   /\ UNCHANGED <<tid, asg, res, pc>>
 
-Next == Fetch \/ SubSelect \/ Join \/ Query \/ Union \/ Project \/ LimitOffset \/ Finish
+Next == Fetch \/ SubSelect \/ Join \/ Query \/ Union \/ Project \/ LimitOffset \/ Multiple \/ MapReduce \/ Finish
 Spec == Init /\ [][Next]_vars
 =============================================================================
